@@ -185,11 +185,11 @@ crd write conv --command cmt`,
 			}
 		}
 
-		wArgs, err := newWriteCmdArgsFromInputInstances(cmd, instances)
-		if err != nil {
+		// check the instances as write would, then print them in the format write reads
+		if _, err := newWriteCmdArgsFromInputInstances(cmd, instances); err != nil {
 			return err
 		}
-		return writeYamlOutput(cmd, wArgs.instances)
+		return writeYamlOutput(cmd, instances)
 	},
 }
 
